@@ -243,6 +243,18 @@ def write_table_hdf5(
                     )
 
     else:  # We need to append the tables!
+        # metadata.merge() below does not treat a value that is missing (None) in
+        # the new table as a conflict, but e.g. a missing reference epoch is
+        # different from a set one
+        for key, val in table.meta.items():
+            old_val = existing_header["meta"].get(key, val)
+            if (val is None) != (old_val is None):
+                raise metadata.MergeConflictError(
+                    "Cannot append table to existing file because "
+                    f"the metadata '{key}' is set in only one of the "
+                    "existing file table and this table object."
+                )
+
         try:
             # FIXME: do something with the merged metadata!
             metadata.merge(
